@@ -132,15 +132,29 @@ func oJoin(a, b *OState) *OState {
 			}
 		} else {
 			o.Files[k] = v
+			if _, inB := b.Files[k]; !inB && v == "owned" {
+				o.Files[k] = "owned?" // obtained on one of the joining paths only
+			}
 		}
 	}
 	for k, v := range b.Files {
 		if _, ok := a.Files[k]; !ok {
 			o.Files[k] = v
+			if v == "owned" {
+				o.Files[k] = "owned?" // obtained on one of the joining paths only
+			}
 		}
 	}
+	// A link ("this File / reference is held only if that error is nil") made on one of the
+	// joining paths still describes that path's value afterwards; it is dropped only when the
+	// two paths disagree about the guard.
 	for k, v := range a.Link {
-		if w, ok := b.Link[k]; ok && w == v {
+		if w, ok := b.Link[k]; !ok || w == v {
+			o.Link[k] = v
+		}
+	}
+	for k, v := range b.Link {
+		if _, ok := a.Link[k]; !ok {
 			o.Link[k] = v
 		}
 	}
@@ -373,6 +387,11 @@ func (c *ownChecker) analyse(fi *FuncInfo, returnsRef bool) {
 							c.nFiles++
 							if st := s.Files[kk]; st == "owned" {
 								c.report("r1", fn+": File "+kk, v.Pos(), false, "File "+kk+" still owned when it is overwritten by the result of "+k+": the previous File is never closed")
+							} else if st == "owned?" && !c.consultedGuard(s, kk, v) {
+								// owned on some of the paths that reach here: fine when the statement is
+								// conditioned on the error of the call that produced the File (the retry
+								// idiom: the File is nil whenever that error is set), a leak otherwise
+								c.report("r1", fn+": File "+kk, v.Pos(), false, "File "+kk+" may still be owned when it is overwritten by the result of "+k+", and the overwrite does not depend on the error of the call that produced it: the previous File is never closed on that path")
 							}
 							s.Files[kk] = "owned"
 							if errObj != nil {
@@ -525,7 +544,7 @@ func (c *ownChecker) analyse(fi *FuncInfo, returnsRef bool) {
 			}
 			if fc.Nil[lk.Guard] == nonNil {
 				if lk.Kind == "file" {
-					if s.Files[lk.Key] == "owned" {
+					if s.Files[lk.Key] == "owned" || s.Files[lk.Key] == "owned?" {
 						s.Files[lk.Key] = "none"
 					}
 				} else {
@@ -1010,33 +1029,125 @@ func (c *ownChecker) deferredReleaseList(fi *FuncInfo, list ast.Expr) bool {
 	if obj == nil {
 		return false
 	}
+	// releasesAll: the body ranges over the list variable and calls DecRef on every element,
+	// or hands the list to a function that does (decRefAll(release)).
+	var releasesAll func(body ast.Node, lst types.Object, depth int) bool
+	releasesAll = func(body ast.Node, lst types.Object, depth int) bool {
+		found := false
+		ast.Inspect(body, func(m ast.Node) bool {
+			switch v := m.(type) {
+			case *ast.RangeStmt:
+				if objOf(info, v.X) != lst || v.Value == nil {
+					return true
+				}
+				ev := info.Defs[v.Value.(*ast.Ident)]
+				ast.Inspect(v.Body, func(k ast.Node) bool {
+					if call, ok := k.(*ast.CallExpr); ok && calleeKey(info, call) == "p9.fidRef.DecRef" {
+						if sel, ok := unparen(call.Fun).(*ast.SelectorExpr); ok && objOf(info, sel.X) == ev {
+							found = true
+						}
+					}
+					return true
+				})
+			case *ast.CallExpr:
+				if depth >= 2 {
+					return true
+				}
+				tf := c.r.L.FuncOf(callee(info, v))
+				if tf == nil || tf.Decl.Body == nil {
+					return true
+				}
+				idx := 0
+				for _, f := range tf.Decl.Type.Params.List {
+					for _, nm := range f.Names {
+						if idx < len(v.Args) && objOf(info, v.Args[idx]) == lst {
+							if releasesAll(tf.Decl.Body, info.Defs[nm], depth+1) {
+								found = true
+							}
+						}
+						idx++
+					}
+				}
+			}
+			return true
+		})
+		return found
+	}
 	found := false
 	ast.Inspect(fi.Decl.Body, func(n ast.Node) bool {
 		d, ok := n.(*ast.DeferStmt)
 		if !ok {
 			return true
 		}
-		lit, ok := unparen(d.Call.Fun).(*ast.FuncLit)
-		if !ok {
-			return true
-		}
-		ast.Inspect(lit.Body, func(m ast.Node) bool {
-			rs, ok := m.(*ast.RangeStmt)
-			if !ok || objOf(info, rs.X) != obj || rs.Value == nil {
-				return true
+		if lit, ok := unparen(d.Call.Fun).(*ast.FuncLit); ok {
+			if releasesAll(lit.Body, obj, 0) {
+				found = true
 			}
-			ev := info.Defs[rs.Value.(*ast.Ident)]
-			ast.Inspect(rs.Body, func(k ast.Node) bool {
-				if call, ok := k.(*ast.CallExpr); ok && calleeKey(info, call) == "p9.fidRef.DecRef" {
-					if sel, ok := unparen(call.Fun).(*ast.SelectorExpr); ok && objOf(info, sel.X) == ev {
-						found = true
-					}
-				}
-				return true
-			})
-			return true
-		})
+		} else if releasesAll(d.Call, obj, 0) {
+			found = true // defer decRefAll(release) - but the list is evaluated at the defer: only a literal sees later appends
+			found = false
+		}
 		return true
 	})
 	return found
+}
+
+// consultedGuard: the statement st lies under a condition that mentions the error variable
+// linked to the File key (the error returned together with it).
+func (c *ownChecker) consultedGuard(s *OState, key string, st ast.Node) bool {
+	// the error variables assigned together with this File by the calls that produce it
+	var guards []types.Object
+	if decl := c.r.L.declAt(st.Pos()); decl != nil {
+		ast.Inspect(decl, func(n ast.Node) bool {
+			as, ok := n.(*ast.AssignStmt)
+			if !ok || len(as.Rhs) != 1 || len(as.Lhs) < 2 || as.Pos() >= st.Pos() {
+				return true
+			}
+			call, ok := unparen(as.Rhs[0]).(*ast.CallExpr)
+			if !ok {
+				return true
+			}
+			if _, isSrc := isSourceCall(c.info, call); !isSrc {
+				return true
+			}
+			for _, l := range as.Lhs {
+				if fobj, isF := c.isFileVar(l); isF && fobj.Name() == strings.SplitN(key, "#", 2)[0] {
+					if eo := objOf(c.info, as.Lhs[len(as.Lhs)-1]); eo != nil && isErrorType(eo.Type()) {
+						guards = append(guards, eo)
+					}
+				}
+			}
+			return true
+		})
+	}
+	if len(guards) == 0 {
+		return false
+	}
+	mentions := func(e ast.Expr) bool {
+		for _, o := range objsIn(c.info, e) {
+			for _, g := range guards {
+				if o == g {
+					return true
+				}
+			}
+		}
+		return false
+	}
+	for p := c.r.L.parent(st); p != nil; p = c.r.L.parent(p) {
+		switch v := p.(type) {
+		case *ast.IfStmt:
+			if mentions(v.Cond) {
+				return true
+			}
+		case *ast.CaseClause:
+			for _, e := range v.List {
+				if mentions(e) {
+					return true
+				}
+			}
+		case *ast.FuncDecl, *ast.FuncLit:
+			return false
+		}
+	}
+	return false
 }
